@@ -552,7 +552,10 @@ class Interp:
             self.declare(env, form[1] or path[-1], LModuleObj(path[-1], {}), module_level)
             return
         if path[0] != "self":
-            raise Unsupported("std import")
+            if path[0] == "std":
+                raise Unsupported("std import")
+            # only self and std are packages
+            raise self.error("ImportError", "Module %s not found" % ".".join(path))
         # every module on the way is loaded (its body runs once, outermost first) before the one asked for
         for depth in range(2, len(path) + 1):
             file = "/v/" + "/".join(path[1:depth]) + ".lay"
